@@ -194,6 +194,14 @@ func (h *DNSHandler) handle(ctx context.Context, req *dns.Msg) *dns.Msg {
 		return dnsutil.SetRcodeWithEDE(req, dns.RcodeServerFailure, do,
 			dns.ExtendedErrorCodeNotAuthoritative, "Upstream server is not authoritative for zone")
 	}
+	if resp.Rcode > 0xF {
+		// An extended rcode (BADVERS, BADCOOKIE, BADKEY ...) is about the
+		// upstream's EDNS exchange with us, not about the client's query, and
+		// it cannot even be encoded for a client that sent no OPT: such a reply
+		// fails to pack and the client gets nothing at all.
+		return dnsutil.SetRcodeWithEDE(req, dns.RcodeServerFailure, do,
+			dns.ExtendedErrorCodeOther, "Upstream server returned an extended error")
+	}
 
 	return resp
 }
